@@ -281,6 +281,46 @@ func runC18(c *Ctx) {
 		}
 	}
 
+	// ---------------------------------------------------------------- D9
+	c.Rule("C18-D9", "the handler set of an occurrence is fixed at the occurrence: every call of eventHandlerStore.getAll / handlerStore.getAll is made on the delivering goroutine, not inside a function literal that "+
+		"is started with `go` — taken later, the set misses a handler that was registered at the occurrence and removed before the goroutine ran, and includes (and consumes) a Once handler registered after it", 3)
+	{
+		started := map[*ssa.Function]bool{} // function literals that are the target of a go statement
+		for _, fn := range p.SrcFuncs() {
+			for _, b := range fn.Blocks {
+				for _, in := range b.Instrs {
+					if g, ok := in.(*ssa.Go); ok {
+						// function literals only: `go socket.onPacket(...)` IS the delivering goroutine of that packet (F21)
+						if mc, isMC := g.Call.Value.(*ssa.MakeClosure); isMC {
+							started[mc.Fn.(*ssa.Function)] = true
+						} else if f, isF := g.Call.Value.(*ssa.Function); isF && f.Parent() != nil {
+							started[f] = true
+						}
+					}
+				}
+			}
+		}
+		for _, fn := range p.SrcFuncs() {
+			for _, cs := range Calls(fn) {
+				sc := cs.Common().StaticCallee()
+				if sc == nil || cs.Instr.Parent() != fn {
+					continue
+				}
+				nm := FuncName(originOf(sc))
+				if nm != "(*sio.eventHandlerStore).getAll" && nm != "(*sio.handlerStore[T]).getAll" {
+					continue
+				}
+				inGo := false
+				for f := fn; f != nil; f = f.Parent() {
+					if started[f] {
+						inGo = true
+					}
+				}
+				c.Ob("C18-D9", "getAll@"+FuncName(fn), cs.Pos(), !inGo, nm+" is called inside a function literal started with `go`: the handler set is read when the goroutine is scheduled, not when the event occurred")
+			}
+		}
+	}
+
 	// ---------------------------------------------------------------- D8
 	c.Rule("C18-D8", "Off wrappers forward one value per argument: at every call of handlerStore.off / eventHandlerStore.off made by a function with a variadic handler parameter, the length of the slice handed on "+
 		"equals the length of that parameter (zone prover: len(arg) - len(param) = 0 on every abstract state reaching the call) — the store reads an EMPTY list as 'remove every handler', so a wrapper "+
